@@ -21,6 +21,11 @@ THEOREMS = [
     'PbBss.C05.mStep_perm',
     'PbBss.C05.mixture_fit_perm',
     'PbBss.C05.mixture_fitPredict_perm',
+    'PbBss.C05.em_eStep_perm',
+    'PbBss.C05.em_mStep_perm',
+    'PbBss.C05.em_fit_perm',
+    'PbBss.C05.em_fit_predict_perm',
+    'PbBss.C05.em_fit_logLik_perm',
 ]
 ASSUMPTIONS = [
     'theorems over the reals: the relabelled run equals the relabelled result exactly; in floating point the sums over the '
